@@ -143,7 +143,7 @@ func TestC17(t *testing.T) {
 				stale = false
 			}
 			mark := c.j.Mark()
-			err = c.ng.IncreaseSize(d)
+			callTarget(rt, "C17", "IncreaseSize", func() { err = c.ng.IncreaseSize(d) })
 			es := c.j.Since(mark)
 			ws := writesOf(es)
 			col.Eval(1)
@@ -320,7 +320,7 @@ func runFleetFailure(rt *rapid.T, col interface{ Eval(int) }, size int, cfg clou
 				panic(r)
 			}
 		}()
-		err = c.ng.IncreaseSize(int64(size))
+		callTarget(rt, "C18", "IncreaseSize (fleet)", func() { err = c.ng.IncreaseSize(int64(size)) })
 	}()
 	es = c.j.Since(mark)
 	for i := range es {
@@ -560,7 +560,8 @@ func TestC19Direct(t *testing.T) {
 				}
 			}
 			mark := c.j.Mark()
-			err := c.ng.DeleteNodes(nodes...)
+			var err error
+			callTarget(rt, "C19", "DeleteNodes", func() { err = c.ng.DeleteNodes(nodes...) })
 			es := c.j.Since(mark)
 			col.Eval(1)
 			desc := func() string {
